@@ -164,6 +164,11 @@ func main() {
 		directed = append(directed, append(append([]op(nil), hier...), tail...))
 	}
 	directed = append(directed, membershipDirected()...)
+	for _, rc := range emptyComponentDirected() {
+		cfg := full
+		cfg.replayAt = rc.at
+		runCase(c, rc.ops, cfg)
+	}
 	directed = append(directed, limitDirected()...)
 	for _, ops := range directed {
 		cfg := full
